@@ -851,8 +851,9 @@ func ringScenario(N int, moduli []uint64, cls string) engine.Scenario {
 						}
 					}
 				}
-				// memory above the ring's level must not be stomped (EvalPolyScalar copies whole polys by design)
-				if op == "EvalPolyScalar" {
+				// memory above the ring's level must not be stomped (EvalPolyScalar copies whole polys by design;
+				// Shift rotates every row of its operand whatever the ring's level: not a ring-level operation)
+				if op == "EvalPolyScalar" || op == "Shift" {
 					return true
 				}
 				for i := level + 1; i < len(moduli); i++ {
@@ -1155,6 +1156,58 @@ func ringScenario(N int, moduli []uint64, cls string) engine.Scenario {
 					a0, a1 := p1.Coeffs[i][j], p2.Coeffs[i][j]
 					return ref.AddMod(a0, mm(x%q, ref.AddMod(a1, mm(x%q, a0, q), q), q), q)
 				}, true) {
+					return
+				}
+			}
+			// NewMonomialXi: X^i in Z_q[X]/(X^N+1) for every exponent class incl. negative and > 2N ones
+			for _, i := range []int{0, 1, N - 1, N, N + 1, 2*N - 1, 2 * N, 2*N + 1, 3*N + 2, -1, -N + 1, -N, -2*N - 3} {
+				mono := r.NewMonomialXi(i)
+				if mono.Level() != level {
+					c.Fail("C01/ring/NewMonomialXi/level", "level %d, ring at level %d", mono.Level(), level)
+					return
+				}
+				o = fresh()
+				copyLvl(o, mono, level)
+				e := ((i % (2 * N)) + 2*N) % (2 * N)
+				if !check("NewMonomialXi", o, func(k int, q uint64, j int) uint64 {
+					if e < N && j == e {
+						return 1
+					}
+					if e >= N && j == e-N {
+						return q - 1
+					}
+					return 0
+				}, true) {
+					return
+				}
+			}
+			// Shift: rotation of the coefficient vector by k positions to the left
+			for _, k := range []int{0, 1, N - 1, N, N + 3, -1, -N - 2} {
+				o = fresh()
+				r.Shift(p1, k, o)
+				kk := ((k % N) + N) % N
+				if !check("Shift", o, func(i int, q uint64, j int) uint64 { return p1.Coeffs[i][(j+kk)%N] }, true) {
+					return
+				}
+			}
+			// MulByVectorMontgomery(ThenAddLazy): one vector (Montgomery form of v_j = j+2 and of boundary values) for all moduli
+			{
+				vec := make([]uint64, N)
+				for j := range vec {
+					vec[j] = uint64(j + 2)
+				}
+				vec[0], vec[N-1] = 0, 1
+				o = fresh()
+				r.MulByVectorMontgomery(p1, vec, o)
+				if !check("MulByVectorMontgomery", o, func(i int, q uint64, j int) uint64 { return mm(mm(p1.Coeffs[i][j], vec[j]%q, q), rinvs[i], q) }, true) {
+					return
+				}
+				o = fresh()
+				copyLvl(o, p2, level)
+				r.MulByVectorMontgomeryThenAddLazy(p1, vec, o)
+				if !check("MulByVectorMontgomeryThenAddLazy", o, func(i int, q uint64, j int) uint64 {
+					return ref.AddMod(p2.Coeffs[i][j], mm(mm(p1.Coeffs[i][j], vec[j]%q, q), rinvs[i], q), q)
+				}, false) {
 					return
 				}
 			}
